@@ -75,6 +75,10 @@ def renormalized(chk):
     ref = chk.ref(PRICE_REF, "RenormalizedFixedIncomeResult", module=BACKTEST)
     rv = ref.exits[-1][1]
     rets = S.return_cases()
+    # the parameters are matched by position (the last two: the strategy and its normaliser), whatever they are called
+    pc, pr = [p_ for p_ in S.fn.params if p_ != "self"], [p_ for p_ in ref.fn.params if p_ != "self"]
+    if len(pc) == len(pr):
+        rv = sym.substitute(rv, dict((("param", b_), ("param", a_)) for a_, b_ in zip(pc, pr) if a_ != b_))
     ok = len(rets) == 1 and canon(rets[0][1]) == canon(rv)
     chk.ob("C17.R6", ok, BACKTEST, host, "renormalised-price", "the renormalised index is PAR x (1 + cumulative (value change - flows) / normaliser)", where=S.fn.where,
            expected=short(rv, 200), found=short(rets[0][1], 200) if rets else "?", sample={"price": short(rets[0][1], 160) if rets else None})
